@@ -73,6 +73,9 @@ type SimNode struct {
 	// insert events it received (-1: never). Used for reset nodes: C13 holds
 	// "for as long as it can insert the events it receives".
 	InsertFailedStep int
+	// SelfInsertFaulted: an injected storage fault cut short the consensus pass
+	// that followed the insertion of this node's own event (C05 selffault)
+	SelfInsertFaulted bool
 	// ReusedIndexStep is the first step at which this node was seen creating an
 	// event at an index it had already used (after a reset it no longer knows
 	// the events it created beyond the anchor): the same thing as equivocation
@@ -398,6 +401,8 @@ type Network struct {
 	// SubmitViaProxy: submissions go through InmemProxy.SubmitTx from a reused buffer
 	SubmitViaProxy bool
 	scratch        []byte
+	// HugeTx: NewTx returns transactions of 40-70 KB (C11 hugetx cases)
+	HugeTx bool
 	// SocketApp: nodes (by index) whose application sits behind the socket proxy
 	SocketApp map[int]bool
 	// AfterStepHook, if set, runs after every step before the monitors
@@ -722,6 +727,15 @@ func (nw *Network) Monologue(a *SimNode) error {
 func (nw *Network) NewTx(node int, kind int) []byte {
 	nw.txSeq++
 	id := fmt.Sprintf("tx|%d|%d|", node, nw.txSeq)
+	if nw.HugeTx {
+		// tens of kilobytes per transaction: a hundred consecutive events then
+		// weigh several megabytes in the database
+		b := []byte(id)
+		for i, k := 0, 40000+nw.Rng.Intn(30000); i < k; i++ {
+			b = append(b, byte('A'+i%26))
+		}
+		return b
+	}
 	switch kind % 6 {
 	case 0:
 		return []byte(id)
